@@ -18,14 +18,15 @@ func C04(r *core.Run) {
 		"(R04.2) IsTruncated is only ever set together with NextMarker = the last examined key; the handler derives NextContinuationToken (V2) / NextMarker (V1, delimiter) from it on the arm where it is non-empty; " +
 		"(R04.3) the continuation token is encoded and decoded with the same base64 alphabet and a decode failure answers InvalidToken; (R04.4) after seeking to the marker the entry equal to the marker is skipped; " +
 		"(R04.5) non-paginating backends refuse a non-empty page before touching their store, and the handler retries with the zero page exactly when that error came back and the refusal option is off; " +
-		"(R04.6) max-keys is clamped from the query; marker / continuation-token / start-after feed page.Marker."
-	r.NotDecided = "completeness and strict ascent across pages, CommonPrefix reported once across pages (false today: a prefix repeats when a page ends inside it), termination as a whole-loop property"
+		"(R04.6) max-keys is clamped from the query; marker / continuation-token / start-after feed page.Marker. (R04.6) start-after feeds the marker only where no continuation token is present; (R04.7) the page after a marker inside a common prefix does not report that prefix again."
+	r.NotDecided = "completeness and strict ascent across pages as value statements, that a CommonPrefix is reported once across pages beyond the marker-group rule R04.7, termination as a whole-loop property"
 	rule041(r)
 	rule042(r)
 	rule043(r)
 	rule044(r)
 	rule045(r)
 	rule046(r)
+	rule047(r)
 }
 
 func rule041(r *core.Run) {
@@ -565,4 +566,62 @@ func blockFieldLoad(v ssa.Value) ssa.Value {
 		}
 	}
 	return v
+}
+
+// rule047 — a page that starts inside a common prefix does not report it again.
+func rule047(r *core.Run) {
+	r.Rule("R04.7", "in s3mem ListBucket the value the loop compares with match.MatchedPart to suppress a repeated common prefix is, on the marker arm, seeded from Prefix.Match(page.Marker): the group the marker key belongs to was reported on the page the marker comes from")
+	fn := mustFunc(r, "s3mem.(*Backend).ListBucket")
+	if fn == nil {
+		return
+	}
+	// the dedupe comparison: MatchedPart ==/!= <variable>
+	var dedupe ssa.Value
+	core.Instrs(fn, func(in ssa.Instruction) {
+		b, ok := in.(*ssa.BinOp)
+		if !ok || (b.Op != token.EQL && b.Op != token.NEQ) {
+			return
+		}
+		switch {
+		case isLoadOf(r, b.X, "gofakes3.PrefixMatch.MatchedPart") && !isLoadOf(r, b.Y, "gofakes3.PrefixMatch.MatchedPart"):
+			dedupe = b.Y
+		case isLoadOf(r, b.Y, "gofakes3.PrefixMatch.MatchedPart") && !isLoadOf(r, b.X, "gofakes3.PrefixMatch.MatchedPart"):
+			dedupe = b.X
+		}
+	})
+	if dedupe == nil {
+		r.Unresolved("R04.7: the common-prefix dedupe comparison of s3mem ListBucket was not found")
+		return
+	}
+	// a Match call on the marker
+	var onMarker *ssa.Call
+	core.Instrs(fn, func(in ssa.Instruction) {
+		c, ok := in.(*ssa.Call)
+		if !ok || r.P.CalleeName(c) != "gofakes3.(Prefix).Match" || len(c.Call.Args) < 2 {
+			return
+		}
+		if isLoadOf(r, core.Forward(c.Call.Args[1]), "gofakes3.ListBucketPage.Marker") {
+			onMarker = c
+		}
+	})
+	seeded := false
+	if onMarker != nil {
+		// the dedupe variable can take a MatchedPart value stored after that call, before the loop
+		ds := r.P.SliceOf(dedupe, core.SliceOpts{Depth: -1})
+		for v := range ds.Values {
+			ld, ok := v.(*ssa.UnOp)
+			if !ok || !isLoadOf(r, ld, "gofakes3.PrefixMatch.MatchedPart") {
+				continue
+			}
+			if core.Reaches(onMarker, ld) && core.CheckedOrGuardedBy(ld, onMarker) {
+				seeded = true
+			}
+		}
+	}
+	p0 := r.P.Pos(fn.Pos())
+	if onMarker != nil {
+		p0 = pos(r, onMarker)
+	}
+	r.Check(seeded, "R04.7", key(fname(r, fn), "marker's common prefix remembered"), p0, "dedupe value seeded from Prefix.Match(page.Marker)",
+		"a page that starts after a marker inside a common prefix reports that prefix again: with delimiter and a page boundary inside a group, the same CommonPrefix appears on consecutive pages")
 }
